@@ -50,6 +50,18 @@ CHECKS = {
              note=BASE_NOTE + "bincode/octopii stand-ins; the adapter file itself cannot be built offline (openraft/tokio missing) and is tied by "
              "translator facts only. Partial: the adapter clause is a recorded finding, not a theorem that holds.",
              tech="Lean 4 proof (encode/decode round trip by structural induction) + translator facts + differential correspondence + oracle", ref="§6 C20"),
+ "C01": dict(text="C01_refines: EVERY history (any length, any number of topics, any payload sizes incl. empty and multi-block, any budgets, both read "
+             "APIs interleaved, peeks, offset reads, rejected operations) of the entry-level engine model AEng is a history of the FIFO specification "
+             "`accepts` (Spec/Queue.lean): appends extend the log, read_next returns the oldest unconsumed entry, a batch read returns a non-empty "
+             "prefix of the unconsumed entries, nothing is skipped, returned twice or reordered. Proved by an inductive per-topic invariant "
+             "(cursor encodings denote one consumed index), planner lemmas (ranges contiguous on entry boundaries, tail only after fully planned "
+             "chain, first range covers the first entry) and parser lemmas (longest admissible contiguous prefix). AEng and the storage-level model "
+             "Eng are both executed by the driver on every generated program and compared with the real engine (both geometries, both backends, "
+             "both consistency modes).",
+             note=BASE_NOTE + "Scope of the theorem: one process lifetime (restart = C06), sequential callers (C05), every I/O succeeds (C04/C07), single entries "
+             "<= MAX_ALLOC (open finding sealThenAllocFail beyond). AEng abstracts files/allocator/trackers/index (they are in Eng); the AEng<->Eng<->implementation "
+             "tie is the correspondence run, not a theorem. Payload bytes are opaque values (byte-identity = same value returned).",
+             tech="Lean 4 proof (refinement of a FIFO spec by induction over operation sequences) + translator + differential correspondence + oracle", ref="§6 C01"),
 }
 NOT_APPLICABLE = {
  "C19": "statement about the vendored openraft core + QUIC transport + tokio runtime, none of which can be built or run offline here (tokio, quinn, rustls, futures absent from the registry); a free-standing Raft proof would be tied to nothing (DESIGN.md §6 C19)",
